@@ -40,7 +40,15 @@ pub fn judge(case: &FaultCase, run: &FaultRun) -> Outcome {
 		classes.push("challenge-already-processing".into());
 	}
 	let mut nontrivial = k >= 2;
-	match &f.action {
+	// problem documents with an empty, absent or very long detail are judged like the plain document of their type
+	let plain = match &f.action {
+		Action::AcmeEmptyDetail(t) | Action::AcmeNoDetail(t) | Action::AcmeHugeDetail(t) => {
+			classes.push("unusual-detail".into());
+			Action::Acme(t.clone())
+		}
+		a => a.clone(),
+	};
+	match &plain {
 		Action::Acme(t) if f.pos.is_post() && RECOVERABLE.contains(&t.as_str()) => {
 			classes.push("recoverable".into());
 			let want = (k + 1).min(MAX_TX);
@@ -80,6 +88,13 @@ pub fn judge(case: &FaultCase, run: &FaultRun) -> Outcome {
 			}
 			if k >= MAX_TX && success {
 				return Outcome::fail("C08:error-taken-for-success", format!("the request was answered with {k} errors in a row, yet the attempt reports success after {} transmissions; {d}", txs.len()));
+			}
+			// it is sent again all the same (with the nonce it has; the CA then answers badNonce with a fresh one): a few such answers are recovered from
+			if k <= 3 && txs.len() < 2 {
+				return Outcome::fail("C08:recoverable-not-retried", format!("{k} {t} answers without a Replay-Nonce header: the request was transmitted {} time(s) and given up; {d}\n{}", txs.len(), run.stderr_tail));
+			}
+			if k <= 3 && !success {
+				return Outcome::fail("C08:recoverable-not-recovered", format!("{k} {t} answers without a Replay-Nonce header, then nothing but proper answers, but the attempt failed after {} transmissions: {:?}; {d}\n{}", txs.len(), a.post.arg("status"), run.stderr_tail));
 			}
 			nontrivial = true;
 		}
@@ -160,6 +175,7 @@ pub fn cases(tier: Tier) -> Vec<FaultCase> {
 		retry_after: None,
 		processing: false,
 		mixed_hooks: false,
+		early_renew: false,
 	};
 	let full_k_positions = [Pos::NewOrder, Pos::Chall(1), Pos::Finalize];
 	for pos in post_positions() {
@@ -178,6 +194,18 @@ pub fn cases(tier: Tier) -> Vec<FaultCase> {
 		}
 		for a in [Action::AcmeNoType, Action::AcmeUnknownType, Action::NonJson(400), Action::NonJson(404), Action::NonJson(500), Action::NonJson(503), Action::Empty(403), Action::Empty(500)] {
 			out.push(mk(&pos, a, 1));
+		}
+		// problem documents whose optional detail is empty or absent, or that are several kilobytes long (with subproblems)
+		for (a, k) in [
+			(Action::AcmeEmptyDetail("serverInternal".into()), 2),
+			(Action::AcmeNoDetail("badNonce".into()), 2),
+			(Action::AcmeHugeDetail("rateLimited".into()), 2),
+			(Action::AcmeHugeDetail("badNonce".into()), 9),
+			(Action::AcmeEmptyDetail("unauthorized".into()), 1),
+			(Action::AcmeNoDetail("rejectedIdentifier".into()), 1),
+			(Action::AcmeHugeDetail("unauthorized".into()), 1),
+		] {
+			out.push(mk(&pos, a, k));
 		}
 		// status codes that are neither 2xx nor 4xx/5xx and that the HTTP library does not follow (redirections proper are out of
 		// the property's scope): 304 and codes above 599
@@ -254,8 +282,11 @@ pub fn acct_cases(tier: Tier) -> Vec<AcctCase> {
 				out.push(AcctCase { pos: pos.into(), action: Action::Acme(t.to_string()), k: 1 });
 			}
 		}
-		for a in [Action::NonJson(500), Action::Empty(403), Action::AcmeNoType, Action::Empty(304), Action::NonJson(600)] {
+		for a in [Action::NonJson(500), Action::Empty(403), Action::AcmeNoType, Action::Empty(304), Action::NonJson(600), Action::AcmeEmptyDetail("unauthorized".into()), Action::AcmeHugeDetail("unauthorized".into())] {
 			out.push(AcctCase { pos: pos.into(), action: a, k: 1 });
+		}
+		for a in [Action::AcmeEmptyDetail("serverInternal".into()), Action::AcmeHugeDetail("badNonce".into())] {
+			out.push(AcctCase { pos: pos.into(), action: a, k: 2 });
 		}
 	}
 	out
@@ -346,7 +377,7 @@ fn exec_acct(case: &AcctCase) -> Outcome {
 	if txs.is_empty() {
 		return Outcome::fail("C08:request-missing", format!("no {} request in the attempt that follows the edit; {d}\n{tail}", case.pos));
 	}
-	let recoverable = matches!(&case.action, Action::Acme(t) if RECOVERABLE.contains(&t.as_str()));
+	let recoverable = matches!(&case.action, Action::Acme(t) | Action::AcmeEmptyDetail(t) | Action::AcmeNoDetail(t) | Action::AcmeHugeDetail(t) if RECOVERABLE.contains(&t.as_str()));
 	if recoverable {
 		classes.push("recoverable".into());
 		let want = (k + 1).min(MAX_TX);
